@@ -46,11 +46,21 @@ def base_cflags(san):
 def compile_one(args):
     src, obj, flags = args
     os.makedirs(os.path.dirname(obj), exist_ok=True)
-    cmd = ([CCACHE] if CCACHE else []) + [CC] + flags + ["-c", src, "-o", obj]
+    # written under a private name and renamed: several checks may build the same object at the same time
+    tmp = "%s.%d.tmp.o" % (obj, os.getpid())
+    cmd = ([CCACHE] if CCACHE else []) + [CC] + flags + ["-c", src, "-o", tmp]
     r = run(cmd)
     if r.returncode != 0:
+        try:
+            os.unlink(tmp)
+        except OSError:
+            pass
         return (src, r.stderr.decode(errors="replace"))
+    os.replace(tmp, obj)
     return None
+
+
+KEEP_BINARIES = False     # --build-only: the binary is the product, keep it under its plain name
 
 
 def build_exec(pid, ex, san=None, fuzz=False):
@@ -90,12 +100,17 @@ def build_exec(pid, ex, san=None, fuzz=False):
         drv = driver_obj("fuzz_entry", san)
     else:
         drv = driver_obj("rc_driver", san)
+    if not KEEP_BINARIES:
+        binpath = "%s.%d" % (binpath, os.getpid())   # one binary per invocation: never replaced while another run executes it
     cmd = [CXX, "-g"] + sanflag + objs + [drv, "-o", binpath] + ([] if fuzz else ["-lrapidcheck"]) + \
           ["-lpthread", "-lm"] + ex.get("libs", [])
     r = run(cmd)
     if r.returncode != 0:
         log(r.stderr.decode(errors="replace")[-4000:])
         raise SystemExit("INTERNAL: link of %s/%s failed" % (pid, ex["name"]))
+    if not KEEP_BINARIES:
+        import atexit
+        atexit.register(lambda p=binpath: os.path.exists(p) and os.unlink(p))
     return binpath
 
 
@@ -314,9 +329,11 @@ def save_violation(pid, binpath, ex, tape_path, key, msg, extra=()):
 
 
 def run_workers(pid, ex, binpath, tier, seed, nworkers, cases, budget, first_worker, flags):
-    outdir = os.path.join(BUILD, pid, "run-" + ex["name"])
+    outdir = os.path.join(BUILD, pid, "run-%s-%d" % (ex["name"], os.getpid()))
     shutil.rmtree(outdir, ignore_errors=True)
     os.makedirs(outdir)
+    import atexit
+    atexit.register(shutil.rmtree, outdir, True)
     procs = []
     for i in range(nworkers):
         w = first_worker + i
@@ -350,9 +367,11 @@ def run_fuzz(pid, ex, tier, seed, jobs, secs, normal_bin):
     except Exception:
         tape_max = 256
     binpath = build_exec(pid, ex, fuzz=True)
-    outdir = os.path.join(BUILD, pid, "fuzz-" + ex["name"])
+    outdir = os.path.join(BUILD, pid, "fuzz-%s-%d" % (ex["name"], os.getpid()))
     shutil.rmtree(outdir, ignore_errors=True)
     os.makedirs(outdir)
+    import atexit
+    atexit.register(shutil.rmtree, outdir, True)
     seeds = os.path.join(outdir, "seeds")
     os.makedirs(seeds)
     for t in glob.glob(os.path.join(VERIF, "replays", pid, ex["name"] + "-*.tape")):
@@ -448,8 +467,10 @@ def check(pid, tier, seed):
                 violations.append((tape, key, msg, ex["name"]))
         # -- 2. extra modes (bounded enumeration etc.)
         for xm in ex.get("extra", {}).get(tier, []):
-            xout = os.path.join(BUILD, pid, "extra-" + ex["name"])
+            xout = os.path.join(BUILD, pid, "extra-%s-%d" % (ex["name"], os.getpid()))
             os.makedirs(xout, exist_ok=True)
+            import atexit
+            atexit.register(shutil.rmtree, xout, True)
             env = dict(os.environ)
             env["ASAN_OPTIONS"] = ASAN_ENV
             r = subprocess.run([binpath, "--extra"] + xm + ["--out", xout, "--seed", str(seed)],
@@ -641,6 +662,8 @@ def main():
         seed = 1 + (-seed)
     seed = seed % 1000000 or 1
     if a.build_only:
+        global KEEP_BINARIES
+        KEEP_BINARIES = True
         for ex in targets.TARGETS[a.pid]["execs"]:
             print(build_exec(a.pid, ex))
         return 0
